@@ -5,7 +5,7 @@ type G1 struct {
 }
 
 type T struct {
-	F0 int32
+	F0 []int32
 	F1 *int64
-	F2 []G1
+	F2 G1
 }
